@@ -23,5 +23,5 @@ for _f in sorted(glob.glob(os.path.join(os.path.dirname(os.path.abspath(__file__
             ENGINES.append(_e)
 
 _WIP = "not yet built (work in progress; planned per DESIGN.md section 9)"
-_REASONS = {p: "temporarily not claimed: Model/Loop.v was extended (poll_opt dispatch, progress markers) and the proofs are being re-established; the previous commit has the complete check" for p in ("C01", "C02", "C04", "C07", "C08", "C18")}
+_REASONS = {}
 NOT_APPLICABLE = {p: _REASONS.get(p, _WIP) for p in ALL if p not in CHECKS}
